@@ -21,6 +21,7 @@ func (fr *Frame) call(st *State, c *ssa.CallCommon, site ssa.Value, pos token.Po
 
 func (fr *Frame) callResolved(st *State, c *ssa.CallCommon, fv Val, args []Val, site ssa.Value, pos token.Pos) Val {
 	r := fr.run
+	fr.curCall = c
 	if c.IsInvoke() {
 		return fr.invoke(st, c, fv, args, pos)
 	}
